@@ -35,7 +35,7 @@ func main() {
 			for j := i; j < len(ops); j++ {
 				for it := 0; it < iters; it++ {
 					w := c12ops.Setup(filepath.Join(root, "w"))
-					c, _ := cdi.NewCache(cdi.WithSpecDirs(w.D0, w.D1), cdi.WithAutoRefresh(auto))
+					c, _ := cdi.NewCache(cdi.WithSpecDirs(w.Dirs()...), cdi.WithAutoRefresh(auto))
 					var wg sync.WaitGroup
 					start := make(chan struct{})
 					var res [2]c12ops.Result
